@@ -48,6 +48,20 @@ def name_atom(term, hdr_size, full_size):
                 return ('generation>0', truth)
             if HDR['segsize'] in sx or 'segsize' in sx:
                 return ('segsize>=%d' % k, truth)
+    # a syscall result tested for failure, in any spelling of `ret < 0` (ret <= -1, !(ret >= 0), ret == -1 ...)
+    if cc is not None:
+        cop, x, c = cc
+        sx = fmt(x)
+        neg = {('lt', 0): False, ('le', -1): False, ('ge', 0): True, ('gt', -1): True, ('eq', -1): False, ('ne', -1): True}.get((cop, c))
+        if neg is not None:
+            for call, atom in (('open#', 'open<0'), ('read#', 'read<0')):
+                others = [o for o in ('open#', 'read#', 'mmap#') if o != call]
+                if call in sx and not any(o in sx for o in others if o != 'open#' or call != 'read#'):
+                    if call == 'open#' and ('read#' in sx or 'mmap#' in sx):
+                        continue
+                    if call == 'read#' and 'mmap#' in sx:
+                        continue
+                    return (atom, neg)
     if op in ('Lt', 'Le', 'Gt', 'Ge', 'Eq', 'Ne'):
         a, b = term[2]
         ca, cb = arith.const_num(arith.strip_casts(a)), arith.const_num(arith.strip_casts(b))
